@@ -87,12 +87,15 @@ pub struct RunStats {
 /// The README loop over the real evaluator, in integers.
 pub fn tally(case: &EnumCase) -> Result<RunStats, String> {
     let (ranges, cfg) = case.build()?;
+    drive::reset_budget();
     let n = cfg.ranges.len();
     let flush = Rc::new(Cell::new(0u64));
     let f = flush.clone();
     verif_hooks::set_sink(Some(Box::new(move |e: &Event| {
-        if let Event::TableLookup { flush: true, .. } = e {
-            f.set(f.get() + 1);
+        match e {
+            Event::TableLookup { flush: true, .. } => f.set(f.get() + 1),
+            Event::Deal { turn_index, river_index, player_indexes, .. } => drive::guard_tick(*turn_index, *river_index, player_indexes),
+            _ => {}
         }
     })));
     let r = catch(|| {
@@ -130,15 +133,20 @@ pub fn tally_lockstep(a: &EnumCase, b: &EnumCase) -> Result<RunStats, String> {
     let (rb, cb) = b.build()?;
     let n = cb.ranges.len();
     let r = catch(|| {
+        // two live evaluators on one thread: tell the non-termination guard which one is stepped
+        drive::stepping(1);
         let mut ia = drive::evaluator(&ca, &ra, None).into_iter();
+        drive::stepping(2);
         let mut ib = drive::evaluator(&cb, &rb, None).into_iter();
         let mut t: Tallies = vec![vec![0; n + 1]; n];
         let (mut showdowns, mut share_defects) = (0u64, 0u64);
         let (mut a_done, mut b_done) = (false, false);
         while !a_done || !b_done {
+            drive::stepping(1);
             if !a_done && ia.next().is_none() {
                 a_done = true;
             }
+            drive::stepping(2);
             if !b_done {
                 match ib.next() {
                     None => b_done = true,
@@ -163,6 +171,7 @@ pub fn tally_lockstep(a: &EnumCase, b: &EnumCase) -> Result<RunStats, String> {
         }
         (t, showdowns, share_defects)
     });
+    drive::stepping(0);
     let (tallies, showdowns, share_defects) = r.map_err(|p| format!("panic: {}", p))?;
     Ok(RunStats { tallies, showdowns, flush_lookups: 0, share_defects })
 }
@@ -335,6 +344,11 @@ pub fn run(ctx: &Ctx) -> Report {
         report.evaluations += 1;
         let stats = match &by_unit[u] {
             Some(Ok(s)) => s,
+            Some(Err(e)) if e.contains(drive::BOUND_PANIC) => {
+                // the harness's own non-termination guard: no tally exists to compare (C02/C08's subject)
+                report.inconclusive(format!("{}: {}", case.label, e));
+                continue;
+            }
             Some(Err(e)) => {
                 report.violate(format!("{}:run-failed", case.signature()), format!("{} under {}: {}", case.label, unit.transform.as_ref().map(|t| t.label()).unwrap_or_else(|| "identity".into()), e), case_json(case, unit.transform.as_ref()));
                 continue;
@@ -430,7 +444,14 @@ pub fn replay(case: &Json) -> Report {
                 report.violate(format!("{}:shares", c.signature()), "flagged winners differ from winner_len()".to_string(), case.clone());
             }
         }
-        (a, b) => report.violate(format!("{}:run-failed", c.signature()), format!("{:?} / {:?}", a.err(), b.err()), case.clone()),
+        (a, b) => {
+            let text = format!("{:?} / {:?}", a.err(), b.err());
+            if text.contains(drive::BOUND_PANIC) {
+                report.inconclusive(text);
+            } else {
+                report.violate(format!("{}:run-failed", c.signature()), text, case.clone());
+            }
+        }
     }
     report
 }
